@@ -86,6 +86,9 @@ struct PollState {
     period: u64,
     due: u64,
     running: bool,
+    /// it has run at least once: "no earlier than one period after its previous run completed" has a previous run to
+    /// count from (when a poll runs for the first time - at once, or one period after it was added - is not stated)
+    ran: bool,
 }
 
 pub struct Sched;
@@ -195,6 +198,7 @@ async fn run_case(case: &Case) -> CaseOut {
                 period: *period as u64,
                 due: rig.now_ms() + *period as u64,
                 running: false,
+                ran: false,
             });
         }
         if ps.len() >= 2 {
@@ -211,7 +215,10 @@ async fn run_case(case: &Case) -> CaseOut {
         {
             out.fail(Fail::new(
                 "duplicate-address-accepted",
-                format!("a second association with the address {} was accepted", addr(i)),
+                format!(
+                    "a second association with the address {} was accepted",
+                    addr(i)
+                ),
             ));
             return out;
         }
@@ -370,7 +377,9 @@ async fn run_case(case: &Case) -> CaseOut {
                             What::Poll(p) => {
                                 poll_runs += 1;
                                 let ps = &mut polls[a][*p];
-                                if t < ps.due {
+                                if t < ps.due && !ps.ran {
+                                    out.label("first_run_of_a_poll_before_its_first_period");
+                                } else if t < ps.due {
                                     out.fail(Fail::new("poll-too-early", format!("poll {p} of {dst} (period {}) started at t={t}, not due before t={}", ps.period, ps.due)).with_sig("C19 poll-early".to_string()));
                                 }
                                 // requests first: nothing submitted (and processed) before this instant may still be waiting
@@ -383,6 +392,7 @@ async fn run_case(case: &Case) -> CaseOut {
                                     out.fail(Fail::new("poll-late-while-idle", format!("poll {p} of {dst} was due at t={} and the channel idle since t={channel_free_since}, but it started only at t={t}", polls[a][*p].due)).with_sig("C19 poll-late".to_string()));
                                 }
                                 polls[a][*p].running = true;
+                                polls[a][*p].ran = true;
                             }
                             What::Other => {}
                         }
